@@ -439,19 +439,27 @@ class Term:
         else:
             raise TypeError
 
-    def subst_type_inplace(self, tyinst) -> Term:
+    def subst_type_inplace(self, tyinst, _visited=None) -> Term:
         """Perform substitution on type variables."""
         typecheck.checkinstance('subst_type_inplace', tyinst, TyInst)
+        # A sub-object that occurs several times in self must be updated once only:
+        # tyinst need not be idempotent. All objects visited are alive during the
+        # call, so id() identifies them.
+        if _visited is None:
+            _visited = set()
+        if id(self) in _visited:
+            return
+        _visited.add(id(self))
         if hasattr(self, "_hash_val"):
             del self._hash_val
         if self.is_svar() or self.is_var() or self.is_const():
             self.T = self.T.subst(tyinst)
         elif self.is_comb():
-            self.fun.subst_type_inplace(tyinst)
-            self.arg.subst_type_inplace(tyinst)
+            self.fun.subst_type_inplace(tyinst, _visited)
+            self.arg.subst_type_inplace(tyinst, _visited)
         elif self.is_abs():
             self.var_T = self.var_T.subst(tyinst)
-            self.body.subst_type_inplace(tyinst)
+            self.body.subst_type_inplace(tyinst, _visited)
         elif self.is_bound():
             pass
         else:
